@@ -209,6 +209,7 @@ func (r *Report) writeReplay(o *Obl) string {
 		"model_inputs": o.Model,
 		"inputs":      o.Inputs,
 		"smt_file":    smt,
+		"pkg_dir":     o.PkgDir,
 		"replayed_on_real_code": false,
 	}
 	data, _ := json.MarshalIndent(rp, "", " ")
